@@ -1,4 +1,4 @@
-SPECIFICATION Spec
+SPECIFICATION ASpec
 CONSTANTS
   Ent = {1, 2, 3, 4, 5}
   Tab <- TabU5
@@ -11,14 +11,13 @@ CONSTANTS
   MaxBlk = 1
   LevelFee = TRUE
   TierAt = 1
-  Defects <- TwoDefects
+  Defects <- AllDefects
   MaxRm = 1
   QueryOn = FALSE
   NodeRig = FALSE
   SubW = 1
-  MaxOps = 0
-  EmitOn = FALSE
-VIEW view
-INVARIANTS TypeOK NoDup CapOK PerSenderOK IndexAgree LatestOK C23OK
-PROPERTIES BlockGone RejectKeeps
+  MaxOps = 2
+  EmitOn = TRUE
+  Mode = "admit"
+INVARIANT Export
 CHECK_DEADLOCK FALSE
